@@ -466,7 +466,7 @@ def restore_checkpoint(path: str, model: nnx.Module) -> nnx.Module:
     """
     import orbax.checkpoint as ocp
 
-    checkpointer = ocp.PyTreeCheckpointer()
-    state = checkpointer.restore(path)
-    graphdef, _ = nnx.split(model)
+    graphdef, abstract_state = nnx.split(model)
+    checkpointer = ocp.StandardCheckpointer()
+    state = checkpointer.restore(path, abstract_state)
     return nnx.merge(graphdef, state)
